@@ -258,6 +258,12 @@ class HillClimbAllocator:
             if not max_lr.is_neighbour(lr):
                 non_nb_turn_list.append(turn)
         assert turn_list
+        if len(turn_list) < 2:
+            # Live ranges that were not reached by an aborted allocate_indices() keep the turn of an
+            # earlier allocation, so the bottleneck and everything that affected it can share one
+            # turn number; there is then no pair of turns to swap. Leave the order unchanged: the
+            # next allocate_indices() re-allocates every live range and refreshes the turns.
+            return
         # Pick from non-neighbour list with 30% probability
         # (magic number based on tuning)
         if random.randint(0, 100) < 30 and non_nb_turn_list:
